@@ -26,250 +26,8 @@ V = "/verif"
 REPO = os.environ.get("NEUTRAL_SRC", "/repo")
 
 
-class Rename(ast.NodeTransformer):
-    def visit_FunctionDef(self, node):
-        # collect locals of this function (own scope only)
-        params = {a.arg for a in node.args.posonlyargs + node.args.args + node.args.kwonlyargs}
-        if node.args.vararg:
-            params.add(node.args.vararg.arg)
-        if node.args.kwarg:
-            params.add(node.args.kwarg.arg)
-        glob = set()
-        assigned = set()
-        nested_used = set()
-
-        def scan(n, top=True):
-            for ch in ast.iter_child_nodes(n):
-                if isinstance(ch, (ast.FunctionDef, ast.AsyncFunctionDef, ast.Lambda, ast.ClassDef)):
-                    if isinstance(ch, (ast.FunctionDef, ast.ClassDef)):
-                        assigned.add(ch.name)
-                        nested_used.add(ch.name)
-                    for x in ast.walk(ch):
-                        if isinstance(x, ast.Name):
-                            nested_used.add(x.id)
-                    continue
-                if isinstance(ch, (ast.ListComp, ast.SetComp, ast.DictComp, ast.GeneratorExp)):
-                    # comprehension scope: its names may refer to our locals -> treat as nested use
-                    for x in ast.walk(ch):
-                        if isinstance(x, ast.Name):
-                            nested_used.add(x.id)
-                    continue
-                if isinstance(ch, (ast.Global, ast.Nonlocal)):
-                    glob.update(ch.names)
-                if isinstance(ch, ast.Name) and isinstance(ch.ctx, (ast.Store, ast.Del)):
-                    assigned.add(ch.id)
-                if isinstance(ch, ast.ExceptHandler) and ch.name:
-                    nested_used.add(ch.name)
-                if isinstance(ch, (ast.Import, ast.ImportFrom)):
-                    for a in ch.names:
-                        nested_used.add((a.asname or a.name).split(".")[0])
-                scan(ch, False)
-        scan(node)
-        ren = {x: x + "__n" for x in assigned - params - glob - nested_used if not x.startswith("__") and x != "_"}
-
-        class R(ast.NodeTransformer):
-            def visit_FunctionDef(self, n):
-                return n
-
-            visit_AsyncFunctionDef = visit_FunctionDef
-            visit_Lambda = visit_FunctionDef
-            visit_ClassDef = visit_FunctionDef
-            visit_ListComp = visit_FunctionDef
-            visit_SetComp = visit_FunctionDef
-            visit_DictComp = visit_FunctionDef
-            visit_GeneratorExp = visit_FunctionDef
-
-            def visit_Name(self, n):
-                if n.id in ren:
-                    n.id = ren[n.id]
-                return n
-        r = R()
-        node.body = [r.visit(s) if not isinstance(s, (ast.FunctionDef, ast.AsyncFunctionDef, ast.ClassDef)) else s for s in node.body]
-        # recurse into nested defs
-        self.generic_visit(node)
-        return node
-
-    visit_AsyncFunctionDef = visit_FunctionDef
-
-
-class FlipIf(ast.NodeTransformer):
-    def visit_If(self, node):
-        self.generic_visit(node)
-        if node.orelse and not (len(node.orelse) == 1 and isinstance(node.orelse[0], ast.If)) and node.body:
-            t = node.test
-            if isinstance(t, ast.UnaryOp) and isinstance(t.op, ast.Not):
-                nt = t.operand
-            else:
-                nt = ast.UnaryOp(op=ast.Not(), operand=t)
-            node.test, node.body, node.orelse = nt, node.orelse, node.body
-        return node
-
-
-class SwapEq(ast.NodeTransformer):
-    def visit_Compare(self, node):
-        self.generic_visit(node)
-        if len(node.ops) == 1 and isinstance(node.ops[0], (ast.Eq, ast.NotEq)):
-            node.left, node.comparators = node.comparators[0], [node.left]
-        return node
-
-
-class RenameComp(ast.NodeTransformer):
-    """rename the variables bound by comprehensions and the parameters of lambdas (x -> x_c)"""
-
-    def _do(self, node):
-        self.generic_visit(node)
-        if isinstance(node, ast.Lambda):
-            names = [a.arg for a in node.args.posonlyargs + node.args.args + node.args.kwonlyargs]
-        else:
-            names = []
-            for g in node.generators:
-                for t in ast.walk(g.target):
-                    if isinstance(t, ast.Name) and t.id not in names:
-                        names.append(t.id)
-        mapping = {n: n + "_c" for n in names if n != "_"}
-        if not mapping:
-            return node
-        first_iter = None if isinstance(node, ast.Lambda) else node.generators[0].iter
-
-        def rec(n):
-            if n is first_iter:
-                return
-            if isinstance(n, ast.Name) and n.id in mapping:
-                n.id = mapping[n.id]
-            elif isinstance(n, ast.arg) and n.arg in mapping:
-                n.arg = mapping[n.arg]
-            for ch in ast.iter_child_nodes(n):
-                rec(ch)
-        for ch in ast.iter_child_nodes(node):
-            rec(ch)
-        return node
-
-    visit_ListComp = visit_SetComp = visit_DictComp = visit_GeneratorExp = visit_Lambda = _do
-
-
-class DeMorgan(ast.NodeTransformer):
-    """`not (a and b)` <-> `not a or not b` is rare in the repo; instead: `x is not None` -> `not x is None`,
-    `a not in b` -> `not a in b`, `a != b` -> `not a == b`"""
-
-    def visit_Compare(self, node):
-        self.generic_visit(node)
-        if len(node.ops) == 1:
-            inv = {ast.IsNot: ast.Is, ast.NotIn: ast.In, ast.NotEq: ast.Eq}
-            for k, v in inv.items():
-                if isinstance(node.ops[0], k):
-                    return ast.UnaryOp(op=ast.Not(), operand=ast.Compare(left=node.left, ops=[v()], comparators=node.comparators))
-        return node
-
-
-class GuardClause(ast.NodeTransformer):
-    """`if c: <body ending with return/raise/continue> else: B` -> `if c: <body>` followed by B"""
-
-    def _block(self, stmts):
-        out = []
-        for st in stmts:
-            st = self.visit(st)
-            if isinstance(st, ast.If) and st.orelse and not (len(st.orelse) == 1 and isinstance(st.orelse[0], ast.If)) and st.body and isinstance(st.body[-1], (ast.Return, ast.Raise, ast.Continue, ast.Break)):
-                rest = st.orelse
-                st.orelse = []
-                out.append(st)
-                out.extend(rest)
-            else:
-                out.append(st)
-        return out
-
-    def generic_visit(self, node):
-        for fld in ("body", "orelse", "finalbody"):
-            v = getattr(node, fld, None)
-            if isinstance(v, list) and v and isinstance(v[0], ast.stmt):
-                setattr(node, fld, self._block(v))
-        for h in getattr(node, "handlers", []) or []:
-            h.body = self._block(h.body)
-        return node
-
-
-class AugToAssign(ast.NodeTransformer):
-    """`x += e` -> `x = x + e` for plain names and self attributes (numbers / immutable use only: += on a list
-    mutates in place, so targets whose name suggests a container are left alone)"""
-
-    def visit_AugAssign(self, node):
-        t = node.target
-        if isinstance(node.op, (ast.Add, ast.Sub)) and (isinstance(t, ast.Name) or (isinstance(t, ast.Attribute) and isinstance(t.value, ast.Name))):
-            txt = ast.unparse(t)
-            if isinstance(node.value, (ast.List, ast.ListComp, ast.Call)) and not (isinstance(node.value, ast.Call) and ast.unparse(node.value.func) in ("len", "sum", "int", "float", "abs", "min", "max")):
-                return node
-            if any(k in txt for k in ("list", "orphan", "msgs", "str", "content", "candidates", "values", "names", "dcop", "args", "nodes", "agents", "hosted", "options", "desc", "parts", "s", "res")) and not txt.endswith(("cost", "count", "_cycle", "counter")):
-                return node
-            import copy
-            load = copy.deepcopy(t)
-            for n in ast.walk(load):
-                if hasattr(n, "ctx"):
-                    n.ctx = ast.Load()
-            return ast.copy_location(ast.Assign(targets=[t], value=ast.BinOp(left=load, op=node.op, right=node.value)), node)
-        return node
-
-
-class Literals(ast.NodeTransformer):
-    """`[]` -> `list()`, `{}` -> `dict()` (empty displays only, not in default arguments)"""
-
-    def visit_List(self, node):
-        self.generic_visit(node)
-        if not node.elts and isinstance(node.ctx, ast.Load):
-            return ast.copy_location(ast.Call(func=ast.Name(id="list", ctx=ast.Load()), args=[], keywords=[]), node)
-        return node
-
-    def visit_Dict(self, node):
-        self.generic_visit(node)
-        if not node.keys:
-            return ast.copy_location(ast.Call(func=ast.Name(id="dict", ctx=ast.Load()), args=[], keywords=[]), node)
-        return node
-
-
-class DropLog(ast.NodeTransformer):
-    """remove logging statements (`self.logger.x(..)`, `logger.x(..)`, `if ...isEnabledFor(..): <logging only>`, print)"""
-
-    @staticmethod
-    def _is_log(st):
-        if isinstance(st, ast.Expr) and isinstance(st.value, ast.Call):
-            f = ast.unparse(st.value.func)
-            return ".logger." in f or f.startswith("logger.") or f.startswith("self.logger.") or f == "print"
-        return False
-
-    def _block(self, stmts):
-        out = []
-        for st in stmts:
-            st = self.visit(st)
-            if st is None:
-                continue
-            if self._is_log(st):
-                continue
-            if isinstance(st, ast.If) and "isEnabledFor" in ast.unparse(st.test) and not st.orelse and all(isinstance(x, ast.Pass) for x in st.body):
-                continue
-            out.append(st)
-        return out or [ast.Pass()]
-
-    def generic_visit(self, node):
-        for fld in ("body", "orelse", "finalbody"):
-            v = getattr(node, fld, None)
-            if isinstance(v, list) and v and isinstance(v[0], ast.stmt):
-                nb = self._block(v)
-                if fld != "body" and all(isinstance(x, ast.Pass) for x in nb):
-                    nb = []
-                setattr(node, fld, nb)
-        for h in getattr(node, "handlers", []) or []:
-            h.body = self._block(h.body)
-        return node
-
-
-KINDS = {"reformat": None, "droplog": DropLog, "literals": Literals, "augassign": AugToAssign, "rename": Rename, "flipif": FlipIf, "swapeq": SwapEq, "renamecomp": RenameComp, "notform": DeMorgan, "guardclause": GuardClause}
-
-
-def transform(src, kind):
-    tree = ast.parse(src)
-    cls = KINDS[kind]
-    if cls is not None:
-        tree = cls().visit(tree)
-        ast.fix_missing_locations(tree)
-    return ast.unparse(tree) + "\n"
+sys.path.insert(0, V)
+from pdv.neutral import KINDS, transform  # noqa: E402
 
 
 def run_checks(tree, props):
